@@ -39,7 +39,7 @@ def tree_hash(top):
 
 
 class Scenario:
-    def __init__(self, res, n, d, fc, sc, epoch=False):
+    def __init__(self, res, n, d, fc, sc, epoch=False, t0=None):
         import digital_rf
         self.drf = digital_rf
         self.res, self.n, self.d, self.fc, self.sc = res, n, d, fc, sc
@@ -49,7 +49,7 @@ class Scenario:
         self.md = os.path.join(self.ch, "metadata")
         os.makedirs(self.md)
         # epoch scenarios start at index 0, so that indices of different decimal lengths share a file
-        self.t0 = 0 if epoch else 1500000000 + res.rng.randrange(0, 86400)
+        self.t0 = 0 if epoch else (t0 if t0 is not None else 1500000000 + res.rng.randrange(0, 86400))
         self.k = cdiv(self.t0 * n, d)               # metadata cursor = RF start sample
         self.rf_next = self.k
         self.rfw = digital_rf.DigitalRFWriter(self.ch, np.int16, 3600, 1000, self.k, n, d, uuid_str="c20",
@@ -369,7 +369,15 @@ def run(res):
         if epoch:                                    # a file must hold indices 0..>100
             n, d, fc = [(200, 3, 60), (100, 1, 3), (1, 1, 3600), (200, 3, 3600)][(si // 5) % 4]
             res.count("scenarios:epoch (decimal length changes inside a file)")
-        sc_ = Scenario(res, n, d, fc, sc, epoch)
+        t0 = None
+        if si % 5 == 2:
+            # the names of the files of one subdirectory differ in decimal length (seconds 0, 3, .., 9, 12 or
+            # 999999999, 1000000000): their order in time is not their order as strings
+            n, d = [(200, 3), (100, 1), (1, 1), (10 ** 6, 3)][(si // 5) % 4]
+            fc, sc = [(3, 3600), (60, 3600), (1, 86400), (10, 3600)][(si // 5 + si // 20) % 4]
+            t0 = [0, 10 ** 9 - rng.randrange(1, 2 * fc + 1), 10 ** 9 - fc, rng.randrange(0, 10)][(si // 10) % 4 if not quick else rng.randrange(4)]
+            res.count("scenarios:file names of different decimal length in one subdirectory")
+        sc_ = Scenario(res, n, d, fc, sc, epoch, t0)
         # a reader created before anything was written
         sc_.new_reader()
         sc_.query(0, 0, 0, 0)
